@@ -206,6 +206,11 @@ func RunFull(c *gen.Ctx, prop string, cfgs []xeng.Config, nops, perOp int, singl
 			return err
 		}
 	}
+	if prop == "C01" {
+		if err := layoutEquivalence(probes, meta); err != nil {
+			return err
+		}
+	}
 
 	// ---- operations --------------------------------------------------------------------------------
 	var ops []genOp
